@@ -5,6 +5,8 @@
 (*   packed, bytes       Pack() succeeded / its octets                          *)
 (*   unpacked, msg2      Unpack(bytes) succeeded / its projection               *)
 (*   repacked, rebytes   Unpack(bytes).Pack()                                   *)
+(*   pbufok, pbufsame    PackBuffer into a buffer pre-filled with 0xff gave the  *)
+(*                       octets of Pack(); rrsame: so did PackRR record by record*)
 (* The specification decides: bytes = EncMsg(msg), msg2 = NormMsg(msg),         *)
 (* rebytes = bytes; a message that cannot be packed must have been refused.     *)
 (* Pure-function events: a wrong one is marked bad and the cursor moves on;     *)
@@ -23,6 +25,9 @@ Stage(e) ==        \* "ok" or the first clause the event violates
   IF ~Packable(m) THEN (IF e.packed THEN "accepts-unpackable" ELSE "ok")
   ELSE IF ~e.packed THEN (IF MayRefuse(m) THEN "ok" ELSE "pack-error")    \* AMBIG: an unordered type list may be refused
   ELSE IF e.bytes # EncMsg(m) THEN "pack-octets"
+  ELSE IF ~e.pbufok THEN "packbuffer-error"             \* PackBuffer into a reused (0xff-filled) buffer: the same octets
+  ELSE IF ~e.pbufsame THEN "packbuffer-octets"
+  ELSE IF ~e.rrsame THEN "packrr-octets"                \* PackRR, record by record, at offset 7 of such a buffer
   ELSE IF ~e.unpacked THEN "unpack-error"
   ELSE IF e.msg2 # NormMsg(m) THEN "unpack-fields"
   ELSE IF ~e.repacked THEN "repack-error"
